@@ -329,16 +329,16 @@ Proof.
       cbn [andb]. destruct (6 <? c_pto_count c1); cbn [fst]; [revert HI; apply InvA_frame; ccbn; auto|].
       destruct (c_pending_burst c1); [|exact HI].
       unfold cc_send_quota. destruct (pacer_schedule _ _ _ _ _) as (p, q). cbn [fst].
-      destruct (c_mtu _ <=? q); revert HI; apply InvA_frame; ccbn; auto.
+      destruct (c_mtu _ <=? _); revert HI; apply InvA_frame; ccbn; auto.
     + cbn [andb]. destruct (c_pending_burst c); [|exact H].
       unfold cc_send_quota. destruct (pacer_schedule _ _ _ _ _) as (p, q). cbn [fst].
-      destruct (c_mtu _ <=? q); revert H; apply InvA_frame; ccbn; auto.
+      destruct (c_mtu _ <=? _); revert H; apply InvA_frame; ccbn; auto.
   - destruct (which =? 0); [|destruct (which =? 1)]; revert H; apply InvA_frame; ccbn; auto.
   - destruct ((0 <=? e) && (e <=? 1)) eqn:Ee; [|exact H]. cbn [fst].
     apply andb_true_iff in Ee. destruct Ee as (E1 & E2). apply Z.leb_le in E1, E2.
     apply InvA_discard; [|exact H]. assert (e = 0 \/ e = 1) by lia. cbn. intuition.
   - unfold cc_send_quota. destruct (pacer_schedule _ _ _ _ _) as (p, q). ccbn.
-    destruct (c_mtu c <=? q); revert H; apply InvA_frame; ccbn; auto.
+    destruct (c_mtu c <=? _); revert H; apply InvA_frame; ccbn; auto.
   - revert H. apply InvA_frame; ccbn; auto.
   - exact H.
 Qed.
@@ -377,13 +377,13 @@ Proof.
     + destruct (on_loss_detection_timeout c ri) as [[c1 lost] pers]. cbn [fst] in A. cbn [andb].
       destruct (6 <? c_pto_count c1); [exact A|]. destruct (c_pending_burst c1); [|exact A].
       unfold cc_send_quota. destruct (pacer_schedule _ _ _ _ _) as (p, q). cbn [fst]. ccbn.
-      destruct (c_mtu c1 <=? q); exact A.
+      destruct (c_mtu c1 <=? _); exact A.
     + cbn [andb]. destruct (c_pending_burst c); [|reflexivity].
       unfold cc_send_quota. destruct (pacer_schedule _ _ _ _ _) as (p, q). cbn [fst]. ccbn.
-      destruct (c_mtu c <=? q); reflexivity.
+      destruct (c_mtu c <=? _); reflexivity.
   - destruct (which =? 0); [|destruct (which =? 1)]; reflexivity.
   - destruct (_ && _); [|reflexivity]. destruct (discard_epoch_core c ri e) as (_ & _ & B & _). exact B.
-  - unfold cc_send_quota. destruct (pacer_schedule _ _ _ _ _) as (p, q). ccbn. destruct (c_mtu c <=? q); reflexivity.
+  - unfold cc_send_quota. destruct (pacer_schedule _ _ _ _ _) as (p, q). ccbn. destruct (c_mtu c <=? _); reflexivity.
   - reflexivity.
   - reflexivity.
 Qed.
